@@ -11,3 +11,6 @@ CONSTANTS
   ICFIs = {}
   MSs = {}
   Emit = FALSE
+  RwMaxOps = 0
+  RwSites = 0
+  RwEmit = FALSE
